@@ -264,6 +264,54 @@ theorem wt_sub {te te' : C.TyEnv} (hs : Sub te te') (e : Expr) (h : e.wt te = tr
     simp only [Expr.wt, inferTy, (iha h.1.1.1).1, (ihb h.1.1.2).1, (iha h.1.1.1).2, (ihb h.1.1.2).2, h.1.2, h.2,
       beq_self_eq_true, Bool.and_self, and_self]
 
+/-- a name-free expression is typed independently of the declarations -/
+theorem wt_nameFree (te te' : C.TyEnv) (e : Expr) (hnf : e.nameFree = true) (h : e.wt te = true) :
+    e.wt te' = true ∧ inferTy te' e = inferTy te e := by
+  induction e with
+  | int n => exact ⟨rfl, rfl⟩
+  | bool b => exact ⟨rfl, rfl⟩
+  | var x => simp [Expr.nameFree] at hnf
+  | bin op a b iha ihb =>
+    simp only [Expr.nameFree, Bool.and_eq_true] at hnf
+    simp only [Expr.wt, Bool.and_eq_true] at h
+    simp only [Expr.wt, inferTy, (iha hnf.1 h.1).1, (ihb hnf.2 h.2).1, Bool.and_self, and_self]
+  | cmp op a b iha ihb =>
+    simp only [Expr.nameFree, Bool.and_eq_true] at hnf
+    simp only [Expr.wt, Bool.and_eq_true] at h
+    simp only [Expr.wt, inferTy, (iha hnf.1 h.1).1, (ihb hnf.2 h.2).1, Bool.and_self, and_self]
+  | neg a iha =>
+    simp only [Expr.nameFree] at hnf
+    simp only [Expr.wt, Bool.and_eq_true, beq_iff_eq] at h
+    simp only [Expr.wt, inferTy, (iha hnf h.1).1, (iha hnf h.1).2, h.2, beq_self_eq_true, Bool.and_self, and_self]
+  | not a iha =>
+    simp only [Expr.nameFree] at hnf
+    simp only [Expr.wt] at h
+    simp only [Expr.wt, inferTy, (iha hnf h).1, and_self]
+  | and a b iha ihb =>
+    simp only [Expr.nameFree, Bool.and_eq_true] at hnf
+    simp only [Expr.wt, Bool.and_eq_true, beq_iff_eq] at h
+    simp only [Expr.wt, inferTy, (iha hnf.1 h.1.1.1).1, (ihb hnf.2 h.1.1.2).1, (iha hnf.1 h.1.1.1).2, (ihb hnf.2 h.1.1.2).2,
+      h.1.2, h.2, beq_self_eq_true, Bool.and_self, and_self]
+  | or a b iha ihb =>
+    simp only [Expr.nameFree, Bool.and_eq_true] at hnf
+    simp only [Expr.wt, Bool.and_eq_true, beq_iff_eq] at h
+    simp only [Expr.wt, inferTy, (iha hnf.1 h.1.1.1).1, (ihb hnf.2 h.1.1.2).1, (iha hnf.1 h.1.1.1).2, (ihb hnf.2 h.1.1.2).2,
+      h.1.2, h.2, beq_self_eq_true, Bool.and_self, and_self]
+  | ite c a b ihc iha ihb =>
+    simp only [Expr.nameFree, Bool.and_eq_true] at hnf
+    simp only [Expr.wt, Bool.and_eq_true, beq_iff_eq] at h
+    simp only [Expr.wt, inferTy, (ihc hnf.1.1 h.1.1.1).1, (iha hnf.1.2 h.1.1.2).1, (ihb hnf.2 h.1.2).1,
+      (iha hnf.1.2 h.1.1.2).2, (ihb hnf.2 h.1.2).2, h.2, beq_self_eq_true, Bool.and_self, and_self]
+  | abs a iha =>
+    simp only [Expr.nameFree] at hnf
+    simp only [Expr.wt] at h
+    simp only [Expr.wt, inferTy, (iha hnf h).1, and_self]
+  | mm k a b iha ihb =>
+    simp only [Expr.nameFree, Bool.and_eq_true] at hnf
+    simp only [Expr.wt, Bool.and_eq_true, beq_iff_eq] at h
+    simp only [Expr.wt, inferTy, (iha hnf.1 h.1.1.1).1, (ihb hnf.2 h.1.1.2).1, (iha hnf.1 h.1.1.1).2, (ihb hnf.2 h.1.1.2).2,
+      h.1.2, h.2, beq_self_eq_true, Bool.and_self, and_self]
+
 theorem Sub_cons {te : C.TyEnv} {i : String} (t : Ty) (hi : te.lookup i = none) : Sub te ((i, t) :: te) := by
   intro x tx hx
   have : x ≠ i := by rintro rfl; rw [hi] at hx; cases hx
